@@ -644,12 +644,35 @@ theorem invL_closeSlot {bd : Nat} {t : Bool} {c : Conn} (h : InvL bd t c) {n : N
     · rename_i heq2; rw [heq2] at h3 d3
       exact invL_dropSlotEnds (hf _ h3) slot (d3.keep (hfk _))
 
+/-- The server-initiated close arm (consumers first, then the channel's caller). -/
+theorem invL_closeSlotN {bd : Nat} {t : Bool} {c : Conn} (h : InvL bd t c) {n : Nat} {slot : Slot}
+    (hslot : lookupN n c.slots = some slot) (r : Reply) (m : CMsg) (fin : Conn → Conn)
+    (hf : ∀ x, InvL bd t x → InvL bd t (fin x)) (hfk : ∀ x, KeepL x (fin x)) :
+    InvL bd t (closeSlotN c n slot r m fin).1 := by
+  have h1 := invL_removeSlot h n
+  have d1 := det_removeSlot h hslot
+  have h2 := invL_notifyConsumers h1 m slot.consumers
+  have d2 := d1.keep (keepL_notifyConsumers m (removeSlot c n) slot.consumers)
+  unfold closeSlotN
+  split
+  · rename_i heq; rw [heq] at h2 d2
+    have h4 := invL_dropSlotEnds h2 slot d2
+    invL_same h4
+  · rename_i c2 heq; rw [heq] at h2 d2
+    have h3 := invL_sendReply h2 slot.lid r
+    have d3 := d2.keep (keepL_sendReply c2 slot.lid r)
+    split
+    · rename_i heq2; rw [heq2] at h3 d3
+      exact invL_dropSlotEnds h3 slot d3
+    · rename_i heq2; rw [heq2] at h3 d3
+      exact invL_dropSlotEnds (hf _ h3) slot (d3.keep (hfk _))
+
 theorem invL_close {bd : Nat} {t : Bool} {c : Conn} (h : InvL bd t c) (n code : Nat) (text dbg : Bytes) :
     InvL bd t (processChannelMethod c n 20 40 [.nat code, .bytes text] dbg).1 := by
   rw [pcm_close_eq]
   split
   · rename_i hs
-    exact invL_closeSlot h (slotGet_ok hs) _ _ _ (fun _ hx => invL_pushOut hx _) (fun x => keepL_pushOut x _)
+    exact invL_closeSlotN h (slotGet_ok hs) _ _ _ (fun _ hx => invL_pushOut hx _) (fun x => keepL_pushOut x _)
   · exact h
 
 theorem invL_closeOk {bd : Nat} {t : Bool} {c : Conn} (h : InvL bd t c) (n : Nat) (fields : List Field) (dbg : Bytes) :
@@ -718,8 +741,8 @@ theorem invL_drainSlots_go {bd : Nat} {t : Bool} {c : Conn} (h : InvL bd t c) (h
       · subst e; exact hl _ List.mem_cons_self
       · obtain ⟨p, hp, e⟩ := List.mem_map.mp hx
         subst e; exact hl p (List.mem_cons_of_mem _ hp)
-    have h1 := invL_sendReply h s.lid r
-    have k1 := keepL_sendReply c s.lid r
+    have h1 := invL_notifyConsumers h m s.consumers
+    have k1 := keepL_notifyConsumers m c s.consumers
     unfold drainSlots.go
     dsimp only
     split
@@ -727,8 +750,8 @@ theorem invL_drainSlots_go {bd : Nat} {t : Bool} {c : Conn} (h : InvL bd t c) (h
       have h2 := invL_foldl_dropSlotEnds h1 (k1.slots.trans hs) (s :: rest.map (·.2)) (hL _ k1)
       invL_same h2
     · rename_i c1 heq; rw [heq] at h1 k1
-      have h2 := invL_notifyConsumers h1 m s.consumers
-      have k2 := k1.trans (keepL_notifyConsumers m c1 s.consumers)
+      have h2 := invL_sendReply h1 s.lid r
+      have k2 := k1.trans (keepL_sendReply c1 s.lid r)
       split
       · rename_i heq2; rw [heq2] at h2 k2
         have h3 := invL_foldl_dropSlotEnds h2 (k2.slots.trans hs) (s :: rest.map (·.2)) (hL _ k2)
